@@ -6,7 +6,7 @@ import os
 from typing import Dict, List
 
 from ..absint import Const, EnumV, IntIv, Interp, Opaque, Rec, StrOf, Tup, as_iv, is_none, NONE
-from ..astutil import call_name, const_int, literal
+from ..astutil import kwarg, call_name, const_int, literal
 from ..index import AnalysisError, AnchorVanished, norm, short, walk_local
 from ..linear import lin
 
@@ -581,4 +581,54 @@ def r18_8(ctx):
     raise AnalysisError(f"Palette.match: cannot show the distance equal to Rich's metric, and no colour was found that it orders differently: {poly.show(got)}")
 
 
-RULES = [r18_0, r18_1, r18_4, r18_5, r18_6, r18_7, r18_8]
+def r18_9(ctx):
+    from ..yieldpaths import Unsupported, paths_of, resolve, select, show
+    ctx.rule("R18.9", "the nearest entry is searched for the colour itself: on every path of Color.downgrade to a 16-colour system (path normal form, temporaries inlined) a truecolor source returns Color(.., number=<target palette>.match(self.triplet)) - the unmodified triplet, one search - and an 8-bit source matches ColorTriplet(*EIGHT_BIT_PALETTE[self.number]) (or keeps its number where the branch says so); a triplet that was masked / rounded first, or a detour through another conversion (truecolor -> 256 -> 16 quantises twice), picks an entry that is not the nearest one under the metric")
+    f = ctx.repo.fn("color:Color.downgrade")
+    m = f.module
+    try:
+        P = [resolve(p_) for p_ in paths_of(f.node)]
+    except Unsupported as u:
+        raise AnalysisError(f"Color.downgrade uses a statement the path normal form does not cover ({u})")
+    n = 0
+    for target, pal in (("STANDARD", "STANDARD_PALETTE"), ("WINDOWS", "WINDOWS_PALETTE")):
+        for src, want_arg in (("TRUECOLOR", "self.triplet"), ("EIGHT_BIT", "ColorTriplet(*EIGHT_BIT_PALETTE[self.number])")):
+            scen = {f"system == ColorSystem.{target}": True, "self.system == ColorSystem.TRUECOLOR": src == "TRUECOLOR", "self.type == ColorType.DEFAULT": False, "self.type == system": False}
+            for other in ("STANDARD", "WINDOWS", "EIGHT_BIT", "TRUECOLOR"):
+                if other != target:
+                    scen[f"system == ColorSystem.{other}"] = False
+            sel = select(P, scen)
+            if not sel:
+                raise AnalysisError(f"Color.downgrade: no path for {src} -> {target}")
+            for p_ in sel:
+                rets = [e for e in p_ if e[0] == "return"]
+                n += 1
+                where = f.where
+                if len(rets) != 1:
+                    raise AnalysisError(f"Color.downgrade: path without a single return: {show(p_)[:200]}")
+                try:
+                    e = ast.parse(rets[0][1], mode="eval").body
+                except SyntaxError:
+                    raise AnalysisError(f"Color.downgrade: unreadable return `{rets[0][1][:80]}`")
+                matches = [c for c in ast.walk(e) if isinstance(c, ast.Call) and isinstance(c.func, ast.Attribute) and c.func.attr == "match"]
+                if not matches:
+                    if src == "EIGHT_BIT" and isinstance(e, ast.Call) and norm(e.func) == "Color" and kwarg(e, "number") is not None and norm(kwarg(e, "number")) == "self.number":
+                        ctx.ok(where, f"{src}->{target}: the number is kept on this branch (R18.1-3 decides the gamut)", f.fq)
+                        continue
+                    ctx.violation(f.fq, rets[0][1][:120], where, f"{src} -> {target}: `return {rets[0][1][:120]}` does not search the {target.lower()} palette for the colour itself" + (" - the colour is first converted to another system and that result is converted again, i.e. quantised twice: #ff8800 ends on 11 instead of 9" if "downgrade" in rets[0][1] else ""))
+                    continue
+                c = matches[0]
+                if not norm(c.func.value).endswith("_PALETTE"):
+                    raise AnalysisError(f"Color.downgrade: the palette searched on the {src} -> {target} path is `{norm(c.func.value)}`, not resolved to a palette constant")
+                okp = norm(c.func.value) == pal
+                oka = len(c.args) == 1 and norm(c.args[0]) == want_arg
+                if not okp:
+                    ctx.violation(f.fq, short(c), where, f"{src} -> {target}: the search runs over `{norm(c.func.value)}`, not over {pal}")
+                elif not oka:
+                    ctx.violation(f.fq, short(c), where, f"{src} -> {target}: the palette is searched for `{norm(c.args[0]) if c.args else ''}` instead of `{want_arg}`: a modified triplet has a different nearest entry for colours near a decision boundary (rgb(0,34,85) -> 0 where 8 is nearer)")
+                else:
+                    ctx.ok(where, f"{src}->{target}: {pal}.match({want_arg})", f.fq)
+    ctx.floor(n, 4, "paths of Color.downgrade to a 16-colour system")
+
+
+RULES = [r18_0, r18_1, r18_4, r18_5, r18_6, r18_7, r18_8, r18_9]
